@@ -19,6 +19,17 @@ def build(ctx, section):
     """section: PURE_BITS | PURE_RAND | PURE_ROTENC - only that unit's library sources are compiled into the harness"""
     exe, log = ctx.cc('pure', SRC(), FLAGS() + ['-D' + section])
     fast, log2 = ctx.cc('pure_fast', SRC(), FLAGS() + ['-O2', '-D' + section], san=False)
+    if (not exe or not fast) and section == 'PURE_ROTENC':
+        # the decoder's data representation changed: rebuild against the public interface only (ROTENC_VAR_INIT, rotenc_decode,
+        # rotenc_count, rotenc_count14).  The per-step comparison with the generated definitions needs the fields, so the
+        # correspondence counts as broken; the walks against the true position - the property itself - still run.
+        exe, logb = ctx.cc('pure', SRC(), FLAGS() + ['-D' + section, '-DVERIF_BLACKBOX'])
+        fast, logb2 = ctx.cc('pure_fast', SRC(), FLAGS() + ['-O2', '-D' + section, '-DVERIF_BLACKBOX'], san=False)
+        if exe and fast:
+            ctx.blackbox = True
+            ctx.broken.append('correspondence: the pure harness no longer compiles against the decoder\'s data representation ('
+                              + ' '.join(l.strip() for l in (log + log2).split('\n') if 'error' in l)[:300] + '); rebuilt against the public interface only')
+            return exe, fast
     if not exe or not fast:
         raise vlib.Unbuildable('pure harness does not compile against /repo: ' + (log + log2)[-1500:])
     return exe, fast
